@@ -206,6 +206,19 @@ namespace ratio
                     l->end(ending_atms->second);
             }
 
+            // freezing the values might have enqueued some literals (e.g., through the theory's lemmas): we propagate them before going on..
+            {
+                const size_t c_level = slv.get_sat_core().decision_level();
+                if (!slv.get_sat_core().propagate())
+                    throw execution_exception();
+                if (slv.get_sat_core().decision_level() < c_level)
+                { // the propagation has found a conflict and backjumped: the plan has to be adapted..
+                    if (!slv.solve() || xi_violated)
+                        throw execution_exception();
+                    goto manage_tick;
+                }
+            }
+
             pulses.erase(pulses.cbegin());
         }
 
